@@ -24,7 +24,8 @@ from basictdf.tdfOpticalSystem import OpticalChannelData, OpticalSetupBlock
 from basictdf.tdfTypes import CameraViewPort
 
 KINDS = ["EMG", "FPCal", "FPData", "Data3D", "Force", "Events", "Optical"]
-KINDS_OF = {"C15": ["EMG", "FPCal", "FPData"], "C16": ["Data3D", "Force", "EMG"], "C18": ["Data3D", "Force", "EMG", "Events"],
+# "EMG@c": the EMG class driven by the model MC_obj_EMGc.cfg (one label, three items: deeper channel histories)
+KINDS_OF = {"C15": ["EMG", "EMG@c", "FPCal", "FPData"], "C16": ["Data3D", "Force", "EMG"], "C18": ["Data3D", "Force", "EMG", "Events"],
             "C20": KINDS}
 CHAN_KINDS = {"EMG", "FPCal", "FPData"}
 NI = 2          # instances the model drives
@@ -385,12 +386,16 @@ def parse_label(lab):
     raise common.Machinery(f"unparsed label {lab!r}")
 
 
+def cfg_of(kind):
+    return "MC_obj_" + kind.replace("@", "") + ".cfg"
+
+
 def graph(kind):
-    key = common.spec_hash("TdfObjectsCore.tla", "TdfObjects.tla", f"MC_obj_{kind}.cfg")
-    cache = common.build_path(f"graph-obj-{kind}-{key}.pickle")
+    key = common.spec_hash("TdfObjectsCore.tla", "TdfObjects.tla", cfg_of(kind))
+    cache = common.build_path(f"graph-obj-{kind.replace('@', '')}-{key}.pickle")
     if not os.path.exists(cache):
-        dot = os.path.join(common.scratch(), f"obj-{kind}.dot")
-        res = tlc.run("TdfObjects.tla", f"MC_obj_{kind}.cfg", workers=16, dump_dot=dot, timeout=3000)
+        dot = os.path.join(common.scratch(), f"obj-{kind.replace('@', '')}.dot")
+        res = tlc.run("TdfObjects.tla", cfg_of(kind), workers=16, dump_dot=dot, timeout=3000)
         if res.violation:
             raise common.Machinery(f"object model {kind} violates {res.violation}\n{res.out[-2000:]}")
         init, adj = tours.parse_dot(dot)
@@ -404,6 +409,8 @@ def graph(kind):
 
 
 def run_tour(kind, labs, seed):
+    model = kind
+    kind = kind.split("@")[0]
     h = Harness(kind, seed)
     h.work = common.scratch()
     init = h.world()
@@ -418,7 +425,7 @@ def run_tour(kind, labs, seed):
             continue  # tracks without frames cannot be encoded; such histories only exercise the editing API
         steps.append(h.run(c))
     return dict(kind="EMG0" if (kind == "EMG" and h.nf == 0) else kind, init=init, steps=steps,
-                meta=dict(labels=labs, seed=seed, kind=kind))
+                meta=dict(labels=labs, seed=seed, kind=model))
 
 
 def validate(traces):
@@ -463,12 +470,12 @@ def check(prop, tier, seed, replay=None):
         trs = [tr]
     else:
         trs = []
-        budget = 2500 if tier == "quick" else None
+        budget = (1500 if prop == "C15" else 2500) if tier == "quick" else None
         rng = random.Random(seed + 5)
         graphs = {}
         for kind in KINDS_OF[prop]:
             init, adj, mc = graph(kind)
-            res = tlc.run("TdfObjects.tla", f"MC_obj_{kind}.cfg", workers=16, coverage=False, timeout=3000)
+            res = tlc.run("TdfObjects.tla", cfg_of(kind), workers=16, coverage=False, timeout=3000)
             if res.violation:
                 raise common.Machinery(f"object model {kind} violates {res.violation}")
             run.add_tlc(f"MC MC_obj_{kind}.cfg", res)
